@@ -201,7 +201,7 @@ REGISTRY.add(Contract(
     ensures=["not g0 and not r0",                       # returns only for a handle never seen gone or recycled ...
              "not self._pid_reused and not self._gone",
              # ... whose identity was checked in THIS call and found intact (the flags alone only remember earlier checks)
-             "log == [('is_running',)] and verdict"],
+             "len(log) >= 1 and log[0] == ('is_running',) and verdict"],
     raises={"NoSuchProcess": ["exc.pid == self._pid"]},
     canaries=["g0"], replay=None,
     note="children()/parent()/ppid() start with this guard: once the process was seen gone or its PID recycled, they raise "
